@@ -137,7 +137,13 @@ class Verifier(ExprMixin, CallMixin, Engine):
                     new = VList(t=z3.Concat(tgt.t, z3.Unit(self.elem_term(args[0], tgt.elem, p))), elem=tgt.elem, elem_cls=tgt.elem_cls)
             elif name == "pop":
                 if tgt.items is None:
-                    raise Unsupported("pop on symbolic list")
+                    k = self.const_int(self.as_int(args[0])) if args else -1
+                    if k != 0:
+                        raise Unsupported("pop on symbolic list (only pop(0))")
+                    self.may_raise(p, z3.Length(tgt.t) == 0, "IndexError", ln)
+                    new = VList(t=z3.Extract(tgt.t, z3.IntVal(1), z3.Length(tgt.t) - 1), elem=tgt.elem, elem_cls=tgt.elem_cls)
+                    self.store(call.func.value, new, p, module)
+                    return
                 k = self.const_int(self.as_int(args[0])) if args else -1
                 items = list(tgt.items)
                 if not items:
@@ -247,6 +253,20 @@ class Verifier(ExprMixin, CallMixin, Engine):
         return items
 
     def st_Assign(self, st, p, module):
+        sv_ = st.value
+        if isinstance(sv_, ast.Call) and isinstance(sv_.func, ast.Attribute) and sv_.func.attr == "pop" and isinstance(sv_.func.value, ast.Name) \
+                and len(sv_.args) == 1 and isinstance(self.ev(sv_.func.value, p, module), VList):
+            # x = lst.pop(0): the removed element is the value; the list is updated as by the statement form
+            lst = self.ev(sv_.func.value, p, module)
+            k = self.const_int(self.as_int(self.ev(sv_.args[0], p, module)))
+            if k == 0:
+                if lst.items is None:
+                    self.may_raise(p, z3.Length(lst.t) == 0, "IndexError", st.lineno)
+                v = self.index_value(lst, VInt(0), p, sv_)
+                self.mutate(sv_, lst, p, module)
+                for t_ in st.targets:
+                    self.store(t_, v, p, module)
+                return [("normal", p, None)]
         v = self.ev(st.value, p, module)
         if isinstance(v, VList) and v.items == [] and len(st.targets) == 1 and isinstance(st.targets[0], ast.Name):
             c = self.contracts.get(self.cur_contract_key_stack[-1]) if self.cur_contract_key_stack else None
@@ -367,7 +387,7 @@ class Verifier(ExprMixin, CallMixin, Engine):
         for status, q, v in outs:
             m2 = q.env["__with_%d" % st.lineno]
             # __exit__ runs on every outcome; the repository's only context manager never swallows (returns None)
-            sub = self.exec_stmt(ast.Expr(value=ast.Call(func=ast.Attribute(value=ast.Name(id="__with_%d" % st.lineno, ctx=ast.Load()), attr="__exit__", ctx=ast.Load()), args=[], keywords=[]), lineno=st.lineno, col_offset=0), q, module)
+            sub = self.exec_stmt(ast.Expr(value=ast.Call(func=ast.Attribute(value=ast.Name(id="__with_%d" % st.lineno, ctx=ast.Load()), attr="__exit__", ctx=ast.Load()), args=[], keywords=[], lineno=st.lineno, col_offset=st.col_offset), lineno=st.lineno, col_offset=0), q, module)
             for s2, q2, v2 in sub:
                 if s2 == "normal":
                     final.append((status, q2, v))
@@ -423,6 +443,16 @@ class Verifier(ExprMixin, CallMixin, Engine):
         return [ast.unparse(h.type).split(".")[-1]]
 
     # ------------------------------------------------------------------ loops
+    def local_annotation(self, name):
+        fi = self.cur_fi_stack[-1]
+        for n in ast.walk(fi.node):
+            if isinstance(n, ast.AnnAssign) and isinstance(n.target, ast.Name) and n.target.id == name:
+                return self.ann_text(n.annotation)
+        c = self.contracts.get(self.cur_contract_key_stack[-1]) if self.cur_contract_key_stack else None
+        if c is not None and name in c.local_types:
+            return c.local_types[name]
+        return None
+
     def loop_ordinal(self, st):
         fi = self.cur_fi_stack[-1]
         loops = sorted([n for n in ast.walk(fi.node) if isinstance(n, (ast.For, ast.While))], key=lambda n: (n.lineno, n.col_offset))
@@ -440,6 +470,8 @@ class Verifier(ExprMixin, CallMixin, Engine):
             # `while reader:` - the default loop contract of the decode tree: nothing is claimed about the locals (they are
             # havocked with their sorts), the measure is the number of octets left in that reader
             spec = {"invariant": [], "decreases": f"len({st.test.id}._view)"}
+        if spec is None and c.simple_loops and isinstance(st, ast.For):
+            spec = {"invariant": []}
         return spec
 
     def assigned_names(self, body):
@@ -546,6 +578,26 @@ class Verifier(ExprMixin, CallMixin, Engine):
                             if r is not None and r[0] == "class" and r[1].kind == "plain":
                                 conservative(node)       # __init__ of a plain class runs inlined
                             continue
+                    if fi is None and isinstance(f, ast.Attribute) and isinstance(f.value, (ast.Name, ast.Attribute)) and \
+                            not (isinstance(f.value, ast.Name) and obj_of(f.value.id) is not None):
+                        # method call on a value that is not a heap object of this frame (a symbolic immutable object such
+                        # as a loop variable or a field): every method of that name in the program is a candidate; if
+                        # all of them have contracts, the union of their frames describes the effect
+                        cands = [ci_.methods[f.attr] for ci_ in self.prog.classes.values() if f.attr in ci_.methods]
+                        ccs = [self.contracts.get(m.key) for m in cands]
+                        if cands and all(cc is not None and not cc.inline for cc in ccs):
+                            for m, cc in zip(cands, ccs):
+                                pn = [x for x, _, _ in m.params()][1:]
+                                actual = dict(zip(pn, node.args))
+                                actual.update({kw.arg: kw.value for kw in node.keywords if kw.arg})
+                                for mm in cc.modifies:
+                                    parts = mm.split(".")
+                                    a = actual.get(parts[0])
+                                    if isinstance(a, ast.Name) and len(parts) == 2:
+                                        fields.add((a.id, parts[1]))
+                                    elif a is not None:
+                                        conservative(a)
+                            continue
                     if fi is None or c is None or c.inline:
                         conservative(node)
                         continue
@@ -616,6 +668,10 @@ class Verifier(ExprMixin, CallMixin, Engine):
         return self.iter_of(seq, p)
 
     def iter_of(self, seq, p):
+        if isinstance(seq, VOpt):
+            if not self.implied(p, z3.Not(seq.isnone)):
+                self.may_raise(p, seq.isnone, "TypeError", 0)      # 'NoneType' object is not iterable
+            seq = seq.val
         if isinstance(seq, VBytes):
             t = seq.t
             return z3.Length(t), (lambda i: VInt(t[i]))
@@ -706,6 +762,14 @@ class Verifier(ExprMixin, CallMixin, Engine):
                 if isinstance(n, ast.Name):
                     targets.add(n.id)
         for name in sorted(targets):
+            if name in h.env and isinstance(h.env[name], VNone):
+                # None at loop entry but assigned in the loop: the shape of the value comes from the local's annotation
+                # (x: t.Optional[T] = None); without one the loop cannot be summarised
+                ann = self.local_annotation(name)
+                if ann is None:
+                    raise Unsupported(f"loop at line {st.lineno} assigns {name}, which is None at loop entry and has no annotation")
+                h.env[name] = self.fresh_of_type(ann, h, module, name)
+                continue
             if name in h.env and not isinstance(h.env[name], VObj) and not (isinstance(h.env[name], VOpt) and isinstance(h.env[name].val, VObj)):
                 h.env[name] = self.havoc_like(h.env[name], h, name)
             elif name in h.env:
@@ -850,7 +914,7 @@ class Verifier(ExprMixin, CallMixin, Engine):
             c = self.contracts.get(fi.key)
             if c is None:
                 raise Unsupported(f"lemma {fi.key} has no contract")
-            args = [self.ev(a, q, module) for a in e.args]
+            args = [self.narrow(self.ev(a, q, module), q) for a in e.args]
             bound = self.bind_args(fi, args, {}, p)
             self.used_contracts.add(c.key)
             qpre = self.spec_path(p, dict(bound), old=None)
@@ -904,7 +968,10 @@ class Verifier(ExprMixin, CallMixin, Engine):
                     new.append({**var, pn: self.fresh_of_type(inner, p, fi.module, pn)})
                 elif ty.startswith("oneof:"):
                     for cn in ty[6:].split(","):
-                        r = self.prog.resolve(fi.module, cn.strip())
+                        cn = cn.strip()
+                        r = self.prog.resolve(*cn.rsplit(".", 1)) if "." in cn else self.prog.resolve(fi.module, cn)
+                        if r is None:
+                            raise Unsupported(f"oneof: unknown class {cn}")
                         new.append({**var, pn: VClass(r[1])})
                 elif ty.startswith("const:"):
                     q = Path(); q.spec = True
